@@ -7,7 +7,7 @@
 (4) hex.literal: $h.. / 0xh.. literals with symbolic hex digits evaluate to sum(d_i * 16^i).
 Not claimed: decimal number text <-> float (decided by snprintf("%g") / strtod in libc, which are not in the IR)."""
 import itertools, z3
-import symrt as rt, vmh, oblig, diffvm, sqfref
+import loader, symrt as rt, vmh, oblig, diffvm, sqfref
 from symrt import S
 from diffvm import Prog
 from C02 import G, N, T
@@ -99,7 +99,7 @@ def replay(spec):
             if ok: return ok, d
             hx = [l[7:] for l in out.split('\n') if l.startswith('OUTHEX ')]
             if not hx: return None, 'no pretty output'
-            srcs = [f for f in glob.glob('/repo/src/**/*.cpp', recursive=True) + glob.glob('/repo/src/**/*.cc', recursive=True) if '/cli/' not in f and '/unused/' not in f and '/sqc/' not in f and '/export/' not in f]
+            srcs = [f for f in glob.glob(loader.REPO + '/src/**/*.cpp', recursive=True) + glob.glob(loader.REPO + '/src/**/*.cc', recursive=True) if '/cli/' not in f and '/unused/' not in f and '/sqc/' not in f and '/export/' not in f]
             exe = C01.native.build('opsdump', sorted(srcs) + ['/verif/harness/opsdump.cpp'], sanitize=False)
             l1 = C01.native.run(exe, ['listing', src.encode('latin1').hex()])[1]; l2 = C01.native.run(exe, ['listing', hx[0]])[1]
             if l1 != l2: return True, 'native: pretty-printed %r -> %r compiles to a different instruction sequence' % (src, bytes.fromhex(hx[0]).decode('latin1'))
